@@ -14,9 +14,10 @@ Abstraction (trusted, exercised on every run by the tie against real asyncio fut
 
 Each combinator is one small machine: `init` = the constructor call (inputs may already be done), `step` one
 environment operation (`set` = settle an input from outside the loop, `soon` = `call_soon(settle)`, `tick`,
-`fire`, `next`), `run` a whole schedule.  The code modelled is the code AFTER the `fix:` commit for defect D2
+`fire`, `next`), `run` a whole schedule.  The code modelled is the code AFTER the `fix:` commits for defect D2
 (cancelled inputs): `chain_future.copy` cancels `b` when `a` is cancelled, `multi_future` treats a cancelled
-child as failed with `CancelledError`.
+child as failed with `CancelledError` — and for duplicate `WaitIterator` arguments: `_unfinished` keeps, per
+future, the queue of indices it was passed at, and `_return_result` hands out one of them per completion.
 -/
 namespace TornadoModel.C36
 
@@ -249,7 +250,8 @@ structure S where
   st : List FState
   args : List Nat                -- the constructor arguments (indices into `st`, duplicates allowed)
   listening : List Nat           -- one entry per registered `_done_callback` (duplicates kept)
-  unfinished : List (Nat × Nat)  -- `_unfinished` : future ↦ index (a dict: one entry per distinct future)
+  unfinished : List (Nat × Nat)  -- `_unfinished` : one (future, index) entry per argument position, in argument
+                                 -- order (the dict future ↦ deque of the indices it was passed at, flattened)
   finished : List Nat            -- `_finished` deque
   running : Option Nat           -- `_running_future`, as an index into `outs`
   outs : List NextOut            -- what the successive `next()` calls returned
@@ -260,28 +262,34 @@ structure S where
   ready : List Tok
   deriving DecidableEq, Repr
 
+/-- `_unfinished[f][0]`: the first index not yet handed out under which `f` was passed -/
 def lookup (m : List (Nat × Nat)) (f : Nat) : Option Nat := (m.find? (·.1 == f)).map (·.2)
 
-/-- dict built by `{f: i for (i, f) in enumerate(args)}`: a later duplicate overwrites the index, the position
-    in the dict stays that of the first occurrence (irrelevant here) -/
-def mkUnfinished : List Nat → Nat → List (Nat × Nat) → List (Nat × Nat)
-  | [], _, m => m
-  | f :: fs, i, m =>
-    mkUnfinished fs (i + 1) (if (lookup m f).isSome then m.map (fun p => if p.1 == f then (f, i) else p) else m ++ [(f, i)])
+/-- `_unfinished[f].popleft()` (the dict entry disappears with its last index): drop the first entry of `f` -/
+def eraseKey : List (Nat × Nat) → Nat → List (Nat × Nat)
+  | [], _ => []
+  | p :: m, f => if p.1 = f then m else p :: eraseKey m f
+
+/-- `for i, f in enumerate(args): _unfinished.setdefault(f, deque()).append(i)` (counting from `i`): every
+    argument position keeps its own index, also when the same future is passed more than once -/
+def enum : List Nat → Nat → List (Nat × Nat)
+  | [], _ => []
+  | f :: fs, i => (f, i) :: enum fs (i + 1)
 
 def setOut (outs : List NextOut) (k : Nat) (v : FState) : List NextOut :=
   match outs[k]? with
   | some (.fut none) => outs.set k (.fut v)      -- `copy`: `if b.done(): return`
   | _ => outs
 
-/-- `_return_result(done)`; the Bool says whether `_unfinished.pop(done)` raised `KeyError` -/
+/-- `_return_result(done)`; the Bool says whether `_unfinished[done]` raised `KeyError` (a future that has no
+    index left — unreachable, see `waititer_full`) -/
 def returnResult (f : Nat) (s : S) : S × Bool :=
   match s.running with
   | none => (s, false)                            -- unreachable ("no future is running")
   | some k =>
     let s := { s with outs := setOut s.outs k (get s.st f), running := none }
     match lookup s.unfinished f with
-    | some i => ({ s with unfinished := s.unfinished.filter (·.1 != f), yielded := s.yielded ++ [(f, i)],
+    | some i => ({ s with unfinished := eraseKey s.unfinished f, yielded := s.yielded ++ [(f, i)],
                           curIdx := some i }, false)
     | none => (s, true)
 
@@ -325,7 +333,7 @@ def register (s : S) (f : Nat) : S :=
   | none => { s with listening := s.listening ++ [f] }
 
 def init (st : List FState) (args : List Nat) : S :=
-  let s0 : S := { st := st, args := args, listening := [], unfinished := mkUnfinished args 0 [], finished := [],
+  let s0 : S := { st := st, args := args, listening := [], unfinished := enum args 0, finished := [],
                   running := none, outs := [], yielded := [], curIdx := none, cbErrs := 0, compl := [], ready := [] }
   args.foldl register s0
 
